@@ -676,4 +676,78 @@ theorem phase_sys (cfg : Cfg) (st : St) (p : SysP) (ins : CapState) (h : SysRead
     · rcases hins with rfl | rfl <;> simp [sin ht, ← sout, ← serr]
     · simp [← sout, ← serr]
 
+/-! ### no capturing -/
+
+def noMC (s : MCState) : MC := { in_ := none, out := none, err := none, state := s, inSuspended := false }
+
+structure NoReady (st : St) (t1 t2 : Nat) : Prop where
+  cm : st.cm = some ⟨.no, some (noMC .suspended)⟩
+  fd1 : st.w.os.fd 1 = some t1
+  fd2 : st.w.os.fd 2 = some t2
+  sout : st.w.py.stdout = .orig 1
+  serr : st.w.py.stderr = .orig 2
+  nofault : st.w.fault = false
+
+theorem doWrites_no (ws : List Write) (w : W) (t1 t2 : Nat)
+    (h1 : w.os.fd 1 = some t1) (h2 : w.os.fd 2 = some t2) (so : w.py.stdout = .orig 1) (se : w.py.stderr = .orig 2) :
+    (doWrites w ws).os.fdt = w.os.fdt ∧ (doWrites w ws).py = w.py ∧ (doWrites w ws).fault = w.fault ∧
+    ∀ f, (doWrites w ws).os.file f = w.os.file f ++
+      outText (fun c => (!c.isErr && t1 == f) || (c.isErr && t2 == f)) ws := by
+  induction ws generalizing w with
+  | nil => simp [doWrites]
+  | cons x ws ih =>
+    have key : ∃ g, doWrite w x = { w with os := w.os.setFile g (w.os.file g ++ x.data) } ∧ g = (if x.chan.isErr then t2 else t1) := by
+      cases hx : x.chan <;> simp [doWrite, hx, writePy, W.osWrite, so, se, OS.write, h1, h2, Chan.isErr]
+    obtain ⟨g, hk, hg⟩ := key
+    have := ih (doWrite w x) (by rw [hk]; simpa using h1) (by rw [hk]; simpa using h2) (by rw [hk]; simpa using so) (by rw [hk]; simpa using se)
+    simp only [doWrites, List.foldl_cons] at this ⊢
+    obtain ⟨a, b, c, d⟩ := this
+    refine ⟨by rw [a, hk]; rfl, by rw [b, hk], by rw [c, hk], ?_⟩
+    intro f
+    rw [d f, hk, outText_cons]
+    simp only [OS.file_setFile, hg]
+    cases hx : x.chan.isErr <;> by_cases hf1 : t1 = f <;> by_cases hf2 : t2 = f <;> simp_all
+    all_goals grind
+
+theorem body_no (cfg : Cfg) (hook : String) (ws : List Write) (filt : List Nat) (w : W) (t1 t2 : Nat)
+    (h1 : w.os.fd 1 = some t1) (h2 : w.os.fd 2 = some t2) (so : w.py.stdout = .orig 1) (se : w.py.stderr = .orig 2) :
+    (bodyOf cfg hook ws filt w).os.fdt = w.os.fdt ∧ (bodyOf cfg hook ws filt w).py = w.py ∧
+    (bodyOf cfg hook ws filt w).fault = w.fault ∧
+    ∀ f, (bodyOf cfg hook ws filt w).os.file f = w.os.file f ++
+      outText (fun c => (!c.isErr && t1 == f) || (c.isErr && t2 == f)) ws := by
+  unfold bodyOf
+  split
+  · have := doWrites_no ws { w with py := { w.py with filters := cfg.cfgFilters ++ w.py.filters } } t1 t2 h1 h2 so se
+    obtain ⟨a, b, c, d⟩ := this
+    simp only [callBody]
+    refine ⟨a, ?_, c, d⟩
+    simp [b]
+  · exact doWrites_no ws w t1 t2 h1 h2 so se
+
+theorem phase_no (cfg : Cfg) (st : St) (t1 t2 : Nat) (h : NoReady st t1 t2)
+    (t : Nat) (hook : String) (ws : List Write) (filt : List Nat) :
+    NoReady (step cfg st (.phase t hook ws filt)) t1 t2 ∧
+    (step cfg st (.phase t hook ws filt)).secs = st.secs ∧
+    (∀ f, (step cfg st (.phase t hook ws filt)).w.os.file f = st.w.os.file f ++
+      outText (fun c => (!c.isErr && t1 == f) || (c.isErr && t2 == f)) ws) ∧
+    (step cfg st (.phase t hook ws filt)).w.os.fdt = st.w.os.fdt ∧
+    (step cfg st (.phase t hook ws filt)).tasks = st.tasks ∧
+    (step cfg st (.phase t hook ws filt)).collectFailed = st.collectFailed ∧
+    (step cfg st (.phase t hook ws filt)).w.py = st.w.py := by
+  rw [step_phase]
+  obtain ⟨hcm, fd1, fd2, sout, serr, nf⟩ := h
+  obtain ⟨a, b, c, d⟩ := body_no cfg hook ws filt st.w t1 t2 fd1 fd2 sout serr
+  generalize hwB : bodyOf cfg hook ws filt st.w = wB at *
+  have e : runCalls t (whenOf hook) (bodyOf cfg hook ws filt) st
+      [.resume, .yield, .suspend false, .read, .section false, .section true] = { st with w := wB } := by
+    simp [runCalls, runCall, withCM, hcm, CM.resume, CM.suspend, CM.read, noMC, MC.resumeCapturing, MC.suspendCapturing,
+      MC.readouterr, MC.snapOpt, optCap, hwB]
+  rw [e]
+  refine ⟨⟨hcm, ?_, ?_, ?_, ?_, ?_⟩, rfl, d, a, rfl, rfl, b⟩
+  · simp [OS.fd, a]; exact fd1
+  · simp [OS.fd, a]; exact fd2
+  · simp [b, sout]
+  · simp [b, serr]
+  · simp [c, nf]
+
 end Pytask.Capture
